@@ -233,6 +233,24 @@ def r3(R, m):
             "unitcell.makerings", "join test %s" % [src(t.test) for t in tests], "a reflection joins the current ring iff |d* - ring d*| < tol")
     # input list comes from gethkls(limit + tol)
     first = [a for a in fn.body if isinstance(a, ast.Assign) and src(a.targets[0]) == "self.peaks"]
+    # a d-star limit below the first reflection gives an empty list: the element 0 that seeds the first ring may only be read where the
+    # list is known to be non-empty
+    cfg3 = pyfacts.PyCFG(fn)
+    for sub in [x for x in ast.walk(fn) if isinstance(x, ast.Subscript) and src(x.value) in ("self.peaks", "peaks") and pyfacts.const_int(x.slice) == 0
+                and isinstance(x.ctx, ast.Load)]:
+        node = cfg3.node_of(pyfacts.containing_stmt(sub))
+        gs = cfg3.guards(node) if node is not None else []
+
+        def nonempty(t, pol):
+            t_ = src(t).replace(" ", "")
+            for nm in ("self.peaks", "peaks"):
+                if (t_ in ("len(%s)>0" % nm, "len(%s)!=0" % nm, "len(%s)>=1" % nm, nm, "0<len(%s)" % nm) and pol) or \
+                        (t_ in ("len(%s)==0" % nm, "not%s" % nm, "len(%s)<1" % nm, "not(%s)" % nm) and not pol):
+                    return True
+            return False
+        R.check(any(nonempty(t, pol) for t, pol in gs), "C03.R3", REL, sub.lineno, "unitcell.makerings", "%s is read only when the list is not empty" % src(sub),
+                "for a d-star limit below the first reflection gethkls returns an empty list and %s raises IndexError (after ringds / ringhkls were "
+                "already reset): a legitimate limit ends in an exception instead of 'no rings'" % src(sub))
     R.check(len(first) == 1 and src(first[0].value).replace(" ", "") == "self.gethkls(limit+tol)", "C03.R3", REL, fn.lineno, "unitcell.makerings",
             "rings built from gethkls(limit + tol)", "rings are not built from the reflection list up to limit + tol")
 
@@ -370,6 +388,49 @@ def r4(R, m):
             "the tested d-star is not that of the hkl being visited")
 
 
+def _extra_inputs(fn, name):
+    """formals of fn other than self / dsmax that the list `name` is computed from (closure over the assignments of fn)"""
+    formals = [a.arg for a in fn.args.args if a.arg not in ("self", "dsmax")]
+    clo, grew = {name}, True
+    while grew:
+        grew = False
+        for st in ast.walk(fn):
+            tg = None
+            if isinstance(st, ast.Assign):
+                tg, val = st.targets, st.value
+            elif isinstance(st, ast.AugAssign):
+                tg, val = [st.target], st.value
+            elif isinstance(st, ast.Expr) and isinstance(st.value, ast.Call) and isinstance(st.value.func, ast.Attribute) \
+                    and st.value.func.attr in ("append", "extend", "insert"):
+                tg, val = [st.value.func.value], st.value
+            elif isinstance(st, ast.For):
+                tg, val = [st.target], st.iter
+            if tg is None:
+                continue
+            tn = set(x.id for t in tg for x in ast.walk(t) if isinstance(x, ast.Name))
+            if tn & clo:
+                new = set(x.id for x in ast.walk(val) if isinstance(x, ast.Name)) - clo
+                if new:
+                    clo |= new
+                    grew = True
+    return [a for a in formals if a in clo]
+
+
+def _is_none_test(t, pol, name):
+    """(t taken with polarity pol) implies  name is None"""
+    if isinstance(t, ast.BoolOp) and isinstance(t.op, ast.And) and pol:
+        return any(_is_none_test(v, True, name) for v in t.values)
+    if isinstance(t, ast.UnaryOp) and isinstance(t.op, ast.Not):
+        return _is_none_test(t.operand, not pol, name)
+    if isinstance(t, ast.Compare) and len(t.ops) == 1 and isinstance(t.left, ast.Name) and t.left.id == name \
+            and isinstance(t.comparators[0], ast.Constant) and t.comparators[0].value is None:
+        if isinstance(t.ops[0], (ast.Is, ast.Eq)):
+            return pol
+        if isinstance(t.ops[0], (ast.IsNot, ast.NotEq)):
+            return not pol
+    return False
+
+
 def r5(R, m):
     R.rule("C03.R5", "cache coherence: every list gethkls / gethkls_xfab returns is the one stored in self.peaks together with "
                      "self.limit = dsmax (a trimmed or foreign list would be cached by makerings under a stale limit)")
@@ -390,13 +451,33 @@ def r5(R, m):
                     ok = any(pol and "dsmax == self.limit" in t for t, pol in g)
                 why = "returns the cached list without checking that it was generated for this limit"
             elif isinstance(r.value, ast.Call) and src(r.value.func) == "self.gethkls_xfab" and r.value.args and src(r.value.args[0]) == "dsmax":
-                ok = True
+                # delegated with the neutral space-group argument (that is the list gethkls_xfab caches)
+                rest = r.value.args[1:] + [kw.value for kw in r.value.keywords]
+                ok = all(isinstance(a, ast.Constant) and a.value is None for a in rest)
+                why = "delegates to gethkls_xfab with a space-group argument: that list is not the one cached for this limit"
             elif isinstance(r.value, ast.Name):
                 nm = r.value.id
                 st = [s for s in ast.walk(fn) if isinstance(s, ast.Assign) and src(s.targets[0]) == "self.peaks" and src(s.value) == nm]
                 lm = [s for s in ast.walk(fn) if isinstance(s, ast.Assign) and src(s.targets[0]) == "self.limit" and src(s.value) == "dsmax"]
-                ok = bool(st) and bool(lm) and all(cfg.dominates(cfg.node_of(s), rn) for s in st[:1] + lm[:1])
-                why = "returns a list that was not stored as self.peaks with self.limit = dsmax"
+                stored = bool(st) and bool(lm) and all(cfg.dominates(cfg.node_of(s), rn) for s in st[:1] + lm[:1])
+                # the cache is keyed by the limit alone (gethkls compares nothing else): a list that also depends on another
+                # argument of the generator (the space-group name given to gethkls_xfab) may be cached only where that argument
+                # has its neutral value, and may be returned uncached where it has not
+                extra = _extra_inputs(fn, nm)
+                g = cfg.guards(rn)
+                neutral = {a: any(_is_none_test(t, pol, a) for t, pol in g) for a in extra}
+                given = {a: any(_is_none_test(t, not pol, a) for t, pol in g) for a in extra}
+                if stored:
+                    bad = [a for a in extra if not neutral[a]]
+                    ok = not bad
+                    why = ("stores the list in the cache that gethkls serves by limit alone although it also depends on %s: "
+                           "after gethkls_xfab(d, '<space group>') a gethkls(d) with the same limit returns that other list" % ", ".join(bad))
+                    if bad:
+                        R.check(False, "C03.R5", REL, r.lineno, qual, "return %s cached for any %s" % (nm, ", ".join(bad)), why)
+                        continue
+                else:
+                    ok = bool(extra) and all(given[a] for a in extra) and not any(cfg.dominates(cfg.node_of(s), rn) for s in st + lm)
+                    why = "returns a list that was not stored as self.peaks with self.limit = dsmax"
             else:
                 why = "returns %s, which is neither the cached list nor a freshly cached one" % v
             R.check(ok, "C03.R5", REL, r.lineno, qual, "return %s" % v[:60],
